@@ -507,3 +507,142 @@ def int_push(pair, regs, ov, inv, slot):
             'tsem': 1 if pair[0] == 'py' else 0, 'c08': 1, 'r0': list(regs), 'ov0': ov, 'obs': [oa], 'loop_ok': 1,
             'whole': None, 'slot': slot, 'sp': regs[SP],
             'accepted': 1 if (oa['r'][IFF] == 0 and oa['r'][SP] == (regs[SP] - 2) % 65536) else 0}
+
+
+# ================================================================== run(start, stop) with the closed-form loops (FastRun.tla)
+FAST = {'fast_djnz': True, 'fast_ldir': True}
+FAST_IMPLS = (('pyfast', 'py', FAST), ('py', 'py', None), ('c', 'c', None))
+TAME = (0x00, 0x00, 0xA0, 0xA8, 0xB0, 0xB8, 0xED, 0x3C, 0x10, 0xFE, 0x04, 0x0B, 0x23, 0x13, 0x1B, 0xA1, 0x44, 0x2F, 0x05, 0x3D)
+FAST_MAX = 320
+
+
+def gen_fast(rnd):
+    """One program whose body is a block copy and/or a DJNZ loop -> (kind, regs, ov, stop).  The copy may reach the
+    instruction's own two bytes from either side, start on them, or replace them by another instruction."""
+    regs = [0] * 30
+    for i in (A, F, B, C, D, E, H, L, 8, 9, 10, 11, I, R, 16, 17, 18, 19, 20, 21, 22, 23):
+        regs[i] = simdrv.r8(rnd)
+    regs[SP] = 0xFF00
+    regs[IM] = rnd.randrange(3)
+    regs[IFF] = 0 if rnd.random() < 0.85 else 1
+    regs[MEMPTR] = rnd.randrange(65536)
+    regs[T] = rnd.choice((0, 1000, FRAME48 - 30, rnd.randrange(FRAME48 * 2)))
+    kind = rnd.choice(('ldir', 'ldir', 'ldir', 'djnz', 'mixed'))
+    pc = rnd.choice((0x8000, 0x8000, 0x6000, 0x4000, 0x4001, 0xC123, 0xFFF0, 0xFFFC, 0xFFFD, 0xFFFE, 0xFFFF, 0x3FFE, 0x3FFF))
+    ov = {}
+    code = []
+    pre = rnd.choice((0, 0, 1, 2))
+    code += [0x00] * pre
+    at = (pc + pre) % 65536          # address of the loop instruction
+    if kind in ('ldir', 'mixed'):
+        inc = rnd.choice((1, -1))
+        code += [0xED, 0xB0 if inc > 0 else 0xB8]
+        bc = rnd.choice((1, 1, 2, 2, 3, 4, 5, 8, 17, 40))
+        how = rnd.random()
+        if how < 0.55:               # the copy starts on, just before or just after the instruction's own bytes
+            de = (at + rnd.randrange(-6, 8)) % 65536
+        elif how < 0.7:              # ... or arrives there with its last bytes
+            de = (at + rnd.randrange(0, 2) - inc * (bc - rnd.choice((0, 1, 1, 2)))) % 65536
+        else:
+            de = rnd.choice((0x9000, 0x5000, 0xFFFE, 0x3FFE, 0x0000, 0xF000))
+        src = rnd.random()
+        if src < 0.5:
+            hl = 0xA000 + rnd.randrange(64)
+        elif src < 0.7:              # the classic fill: source one behind the destination
+            hl = (de - inc) % 65536
+        elif src < 0.85:             # copies its own code
+            hl = (at + rnd.randrange(-3, 5)) % 65536
+        else:
+            hl = rnd.choice((0xFFFF, 0x0000, 0x3FFF, 0x4000))
+        for i in range(-2, 44):
+            ov[(hl + inc * i) % 65536] = rnd.choice(TAME)
+        regs[B], regs[C] = bc >> 8, bc & 255
+        regs[D], regs[E] = de >> 8, de & 255
+        regs[H], regs[L] = hl >> 8, hl & 255
+    if kind in ('djnz', 'mixed'):
+        if kind == 'mixed':
+            code += [0x06, rnd.choice((1, 2, 3, 9))]
+        else:
+            regs[B] = rnd.choice((0, 1, 1, 2, 3, 5, 20, 100, 255))
+            if regs[B] == 0 and rnd.random() < 0.5:
+                regs[B] = 2
+        back = rnd.choice((0xFE, 0xFE, 0xFE, 0xFE, 0xFD, 0x00, 0xFC, 0x01)) if kind == 'djnz' else 0xFE
+        if back in (0xFD, 0xFC) and pre + len(code) < 256 - back:
+            back = 0xFE
+        code += [0x10, back]
+    code += [rnd.choice((0x00, 0x3C, 0x04, 0x23)) for _ in range(rnd.choice((1, 1, 2, 4)))]
+    stop = (pc + len(code)) % 65536
+    for i, b in enumerate(code):
+        ov[(pc + i) % 65536] = b     # the code wins over the source area where they overlap
+    regs[PC] = pc
+    return kind, regs, [[a, v] for a, v in ov.items()], stop, (at if kind != 'djnz' else -1)
+
+
+def _mk(impl, cfg, regs, ov):
+    from skoolkit import simutils
+    cls = _classes()[impl]
+    mem = bytearray(BASE_BYTES) if impl == 'c' else list(BASE)
+    for a, v in ov:
+        mem[a] = v
+    sim = simutils.from_memory(cls, mem, None, None, cfg)
+    for i, v in enumerate(regs):
+        sim.registers[i] = v
+    return sim, bytes(mem)
+
+
+def fast_case(kind, regs, ov, stop, at=-1, mark=None):
+    """Plain stepping decides whether the program reaches `stop` within FAST_MAX instructions; if so every
+    implementation/configuration runs it as ONE run(start, stop) call."""
+    import signal
+    sim, ref = _mk('py', None, regs, ov)
+    steps = 0
+    while steps < FAST_MAX:
+        sim.run()
+        steps += 1
+        if sim.registers[PC] == stop:
+            break
+    else:
+        return None
+    obs = []
+    for name, impl, cfg in FAST_IMPLS:
+        sim, ref = _mk(impl, cfg, regs, ov)
+        exc = ''
+        if mark:
+            with open(mark, 'w') as f:
+                f.write(repr((name, kind, regs, ov, stop)))
+
+        def over(*a):
+            raise TimeoutError('run(start, stop) still running after 10 s')
+        old = signal.signal(signal.SIGALRM, over)
+        signal.alarm(10)
+        try:
+            sim.run(regs[PC], stop, False)
+        except Exception as e:
+            exc = '%s: %s' % (type(e).__name__, e)
+        finally:
+            signal.alarm(0)
+            signal.signal(signal.SIGALRM, old)
+        cur = bytes(sim.memory)
+        wr = [[a, cur[a]] for a in range(65536) if cur[a] != ref[a]] if cur != ref else []
+        obs.append({'impl': name, 'r': [int(v) for v in sim.registers], 'wr': wr, 'exc': exc})
+    own = 1 if at >= 0 and any(a in (at, (at + 1) % 65536) for a, v in obs[1]['wr']) else 0
+    return {'kind': kind, 'r0': regs, 'ov0': ov, 'stop': stop, 'max': steps, 'steps': steps, 'frame': FRAME48, 'ia': IA48,
+            'inv': 255, 'obs': obs, 'at': at, 'own': own}
+
+
+def fast_cases(args):
+    """(seed, n, mark file) -> FastRun cases."""
+    seed, n, mark = args
+    import os
+    cbuild.preload()
+    rnd = random.Random(seed)
+    out = []
+    tries = 0
+    while len(out) < n and tries < n * 4:
+        tries += 1
+        c = fast_case(*gen_fast(rnd), mark=mark)
+        if c:
+            out.append(c)
+    if mark and os.path.exists(mark):
+        os.remove(mark)
+    return out
